@@ -113,6 +113,34 @@ func runC17(w *W) {
 		{"column-alias", func(k string) string { return "SELECT 1 AS " + k }, func(k string) string { return "Literal UInt64_1 (alias " + k + ")" }},
 		{"table-alias", func(k string) string { return "SELECT 1 FROM t AS " + k }, func(k string) string { return "TableIdentifier t (alias " + k + ")" }},
 	}
+	// the same three positions behind every kind of expression / table expression that handles its alias itself, and with
+	// something following the name (the special parse functions — CASE, CAST, SUBSTRING, TRIM, EXTRACT, `::`, lambdas,
+	// table functions, subqueries, joins — each carry their own copy of the alias code)
+	aliasLine := func(k string) string { return "(alias " + k + ")" }
+	for i, e := range []string{"x", "f(x)", "CASE WHEN 1 THEN 2 END", "CASE x WHEN 1 THEN 2 ELSE 3 END", "CAST(x AS Int8)", "CAST(x, 'Int8')", "x::Int8", "(SELECT 1)", "[1, 2]", "(1, 2)",
+		"x + 1", "'s'", "-1", "NOT x", "INTERVAL 1 DAY", "EXTRACT(DAY FROM d)", "SUBSTRING(s FROM 1 FOR 2)", "TRIM(BOTH 'a' FROM s)", "count() OVER ()", "t.a", "a[1]", "t.1", "{p:UInt8}",
+		"x IN (1, 2)", "x BETWEEN 1 AND 2", "x IS NULL", "if(1, 2, 3)", "position('a' IN s)", "NULL", "1.5", "x -> x", "arrayMap(y -> y, z)", "DATE '2020-01-01'", "x LIKE 'a'", "(x)", "((1))", "*"} {
+		e := e
+		if e == "*" {
+			// the replacement name is not printed: the tree must be the one obtained with an ordinary name
+			probes = append(probes, probe{"replace-name", func(k string) string { return "SELECT * REPLACE (1 AS " + k + ") FROM t" }, func(k string) string { return "=same-as:SELECT * REPLACE (1 AS zz) FROM t" }})
+			probes = append(probes, probe{"columns-replace-name", func(k string) string { return "SELECT COLUMNS('a') REPLACE (1 AS " + k + ") FROM t" }, func(k string) string { return "=same-as:SELECT COLUMNS('a') REPLACE (1 AS zz) FROM t" }})
+			continue
+		}
+		probes = append(probes, probe{fmt.Sprintf("column-alias#%d", i), func(k string) string { return "SELECT " + e + " AS " + k }, aliasLine})
+		probes = append(probes, probe{fmt.Sprintf("column-alias-then-more#%d", i), func(k string) string { return "SELECT " + e + " AS " + k + ", 2 FROM t" }, aliasLine})
+	}
+	for i, te := range []string{"t", "db.t", "numbers(1)", "(SELECT 1)", "remote('h', db.t)", "`q t`"} {
+		te := te
+		probes = append(probes, probe{fmt.Sprintf("table-alias#%d", i), func(k string) string { return "SELECT 1 FROM " + te + " AS " + k }, aliasLine})
+		probes = append(probes, probe{fmt.Sprintf("table-alias-then-more#%d", i), func(k string) string { return "SELECT 1 FROM " + te + " AS " + k + " WHERE 1" }, aliasLine})
+		probes = append(probes, probe{fmt.Sprintf("join-alias#%d", i), func(k string) string { return "SELECT 1 FROM u JOIN " + te + " AS " + k + " ON 1" }, aliasLine})
+	}
+	for i, f := range [][2]string{{"SELECT t.", " FROM t"}, {"SELECT t.", ", 2"}, {"SELECT f(t.", ")"}, {"SELECT t.", " + 1"}, {"SELECT 1 FROM t WHERE t.", " = 1"}, {"SELECT 1 FROM t ORDER BY t.", ""},
+		{"SELECT db.t.", ""}, {"SELECT t.", " AS a"}, {"SELECT 1 FROM t GROUP BY t.", ""}, {"SELECT -t.", ""}, {"SELECT t.", "::Int8"}} {
+		f := f
+		probes = append(probes, probe{fmt.Sprintf("column-after-dot#%d", i), func(k string) string { return f[0] + k + f[1] }, func(k string) string { return "t." + k }})
+	}
 	for _, k := range kws {
 		idx, mine := w.Case()
 		if !mine {
@@ -143,7 +171,23 @@ func runC17(w *W) {
 					e := safeExplain(obs.Stmts[0])
 					if e.Panicked {
 						fail = "Explain panicked: " + e.PanicVal
-					} else if !containsLine(e.Out, p.want(cs)) {
+					} else if wl := p.want(cs); strings.HasPrefix(wl, "=same-as:") {
+						ref := safeParse([]byte(strings.TrimPrefix(wl, "=same-as:")), 1<<20)
+						if ref.Err == nil && len(ref.Stmts) == 1 {
+							if re := safeExplain(ref.Stmts[0]); re.Out != e.Out {
+								fail = fmt.Sprintf("EXPLAIN differs from that of %q:\n%s", strings.TrimPrefix(wl, "=same-as:"), trunc(e.Out, 600))
+							}
+						}
+					} else if strings.Contains(p.name, "#") {
+						// behaves exactly like an ordinary name at this place: the tree is that of the same statement with the
+						// name `zzqq`, up to the spelling (an alias the printer drops for every name is not C17's business)
+						ref := safeParse([]byte(p.sql("zzqq")), 1<<20)
+						if ref.Err == nil && !ref.Panicked && len(ref.Stmts) == 1 {
+							if re := safeExplain(ref.Stmts[0]); strings.ReplaceAll(re.Out, "zzqq", cs) != e.Out {
+								fail = fmt.Sprintf("EXPLAIN differs from that of %q with the name substituted: %s\n%s", p.sql("zzqq"), firstLineDiff(strings.ReplaceAll(re.Out, "zzqq", cs), e.Out), trunc(e.Out, 600))
+							}
+						}
+					} else if !containsLine(e.Out, wl) {
 						fail = fmt.Sprintf("EXPLAIN lacks the line %q:\n%s", p.want(cs), trunc(e.Out, 600))
 					}
 				}
